@@ -13,6 +13,8 @@ COps == [op : {"register"}, name : {N1, N2}, uri : {1}, safe : BOOLEAN, tags : {
    \cup [op : {"lookup"}, name : {N1}, meta : {TRUE}]
    \cup [op : {"list"}, sel : {"all"}, arg : {<<>>}, kind : {"none"}, meta : {TRUE}]
    \cup [op : {"list"}, sel : {"prefix"}, arg : {N1}, kind : {"none"}, meta : {FALSE}]
+   \cup [op : {"list"}, sel : {"regex"}, arg : {N1}, kind : {"prefix"}, meta : {TRUE}]
+   \cup [op : {"yplookup"}, mode : {"any"}, tags : {<<1, 2>>}, meta : {TRUE}]
    \cup [op : {"count"}, meta : {FALSE}]
 VARIABLES init, ops
 Init == init \in SUBSET {N1, N2} /\ ops = <<>>
